@@ -844,7 +844,19 @@ def check_ld_walk(run, repo, sizes, regime='pl1'):
         tt0 = m.reg_attr('ttbr0_64', 64)
         tt1 = m.reg_attr('ttbr1_64', 64)
         hyp = regime == 'hyp'
-        if hyp:
+        s2r = regime == 's2'
+        if s2r:
+            # stage-2 regime: 40-bit IPA, VTTBR, VTCR.T0SZ (signed 4 bits) = t0, VTCR.SL0 = t1 (start level 2 - SL0)
+            ia = m.sym('ARG.ipa', 40)
+            va = m.sym('ARG.va', 32)
+            vtcr = rm.view('vtcr')
+            hsctlr = rm.view('hsctlr')
+            tt0 = m.reg_attr('vttbr', 64)
+            dom = B.all_and([it.i_eq(Int(vtcr.bits[0:4]), it.const(t0 & 15)), it.i_eq(Int(vtcr.bits[6:8]), it.const(t1)),
+                             rm.cfg('have_virt_ext'), rm.cfg('have_security_ext'), rm.valid_state(), B.NOT(hsctlr.bits[25]),
+                             decode.arch_constraint(it)])
+            label = 'stage 2, VTCR.T0SZ=%d SL0=%d' % (t0, t1)
+        elif hyp:
             # Hyp regime: HTTBR / HTCR.T0SZ only, never secure, descriptor fetch endianness from HSCTLR.EE
             htcr = rm.view('htcr')
             hsctlr = rm.view('hsctlr')
@@ -856,7 +868,8 @@ def check_ld_walk(run, repo, sizes, regime='pl1'):
             dom = B.all_and([it.i_eq(Int(ttbcr.bits[0:3]), it.const(t0)), it.i_eq(Int(ttbcr.bits[16:19]), it.const(t1)),
                              B.NOT(rm.cfg('have_virt_ext')), rm.valid_state(), B.NOT(sctlr.bits[25]), decode.arch_constraint(it)])
             label = 'T0SZ=%d T1SZ=%d' % (t0, t1)
-        res, _ = m.run('ArmV6', 'translation_table_walk_ld', [ia, ia, wr, it.const(1), s2, it.const(4)], cond=dom)
+        res, _ = m.run('ArmV6', 'translation_table_walk_ld',
+                       [ia, va, wr, it.const(0), s2, it.const(4)] if s2r else [ia, ia, wr, it.const(1), s2, it.const(4)], cond=dom)
         ok = True
 
         def bad(construct, msg, wit=None, _label=label):
@@ -867,28 +880,31 @@ def check_ld_walk(run, repo, sizes, regime='pl1'):
                            if wit not in (None, 0) else None})
         cat = lambda *parts: Int([b for p in parts for b in p])
         zeros = lambda n: [0] * n
-        secure = 0 if hyp else rm.is_secure(rm.cpsr())
+        secure = 0 if (hyp or s2r) else rm.is_secure(rm.cpsr())
         # ---- reference: base selection ----------------------------------------------------------
-        top0 = B.all_and([B.NOT(b) for b in ia.bits[32 - t0:32]]) if t0 else 1
-        use0 = 1 if t0 == 0 else top0
-        if hyp:
+        if s2r:
+            use0 = 1 if t0 == -8 else B.all_and([B.NOT(b) for b in ia.bits[32 - t0:40]])
+        else:
+            top0 = B.all_and([B.NOT(b) for b in ia.bits[32 - t0:32]]) if t0 else 1
+            use0 = 1 if t0 == 0 else top0
+        if hyp or s2r:
             use1 = 0
         elif t1 == 0:
             use1 = B.NOT(use0)
         else:
             use1 = B.all_and(list(ia.bits[32 - t1:32]))
         found = B.OR(use0, use1)
-        epd = 0 if hyp else B.ite(use1, ttbcr.bits[23], ttbcr.bits[7])
+        epd = 0 if (hyp or s2r) else B.ite(use1, ttbcr.bits[23], ttbcr.bits[7])
 
         def start(tsz, ttbr):
-            lvl = 1 if tsz < 2 else 2
-            x = 9 * lvl - tsz - 4
+            lvl = (2 - t1) if s2r else (1 if tsz < 2 else 2)
+            x = (14 - tsz - 9 * t1) if s2r else (9 * lvl - tsz - 4)
             base = cat(zeros(x), ttbr.bits[x:40])
             lo = 39 - 9 * lvl
             sel = cat(zeros(3), ia.bits[lo:32 - tsz])
             return lvl, Int(it.ext(it.i_bitop('or', base, sel), 40))
         l0, a0 = start(t0, tt0)
-        l1, a1 = start(t1 if not hyp else t0, tt1)
+        l1, a1 = start(t0 if (hyp or s2r) else t1, tt1)
         nofault0 = B.AND(found, B.NOT(epd))
         # the two start levels may differ: build per-selection references and merge with ite(use1, ...)
         refs = {}
@@ -909,6 +925,10 @@ def check_ld_walk(run, repo, sizes, regime='pl1'):
                 out = cat(ia.bits[0:n], d.bits[n:40])
                 at = list(d.bits[2:12]) + list(d.bits[52:55])
                 nls = B.NOT(ls)
+                if s2r:
+                    xn = pxn = 0
+                    rw = us = 1
+                    nls = 0
                 at[12] = B.OR(at[12], xn)
                 at[11] = B.OR(at[11], pxn)
                 at[9] = B.OR(at[9], B.AND(secure, nls))
@@ -951,7 +971,7 @@ def check_ld_walk(run, repo, sizes, regime='pl1'):
                         r = specmod.diff_values(it, reg, a[3], V(it.const(L)), 'level')
                         if r is not None:
                             bad('%s fault level' % kind.lower(), 'the fault is reported for the wrong lookup level: %s' % r[0], r[1])
-                for idx, what, want in ((0, 'faulting address', V(ia)), (9, 'LDFSR format', None), (7, 'second-stage flag', None),
+                for idx, what, want in ((0, 'faulting address', V(va if s2r else ia)), (9, 'LDFSR format', None), (7, 'second-stage flag', None),
                                         (6, 'taken-to-Hyp flag', None)):
                     nob += 1
                     if want is not None:
@@ -963,7 +983,7 @@ def check_ld_walk(run, repo, sizes, regime='pl1'):
                             tv = it.truth(a[idx], cc)
                         except Exception:
                             tv = None
-                        exp = 1 if idx == 9 or (idx == 6 and hyp) else 0
+                        exp = 1 if idx == 9 or (idx == 6 and (hyp or s2r)) or (idx == 7 and s2r) else 0
                         if tv is None or B.AND(cc, B.XOR(tv, exp)) != 0:
                             bad('%s fault %s' % (kind.lower(), what), 'a stage-1 long-descriptor fault must be reported in the '
                                 'LPAE format, as a first-stage abort, and taken to Hyp mode exactly in the Hyp regime')
@@ -1016,7 +1036,7 @@ def check_ld_walk(run, repo, sizes, regime='pl1'):
             want = {'addrdesc.paddress.physicaladdress': Int(it.ext(stp['out'], 40)), 'perms.xn': Int([at[12]]),
                     'perms.pxn': Int([at[11]]), 'contiguousbit': Int([at[10]]), 'ng': Int([at[9]]),
                     'perms.ap': Int([1, at[4], at[5]]), 'level': it.const(L), 'blocksize': it.const((512 ** (3 - L)) * 4),
-                    'addrdesc.paddress.ns': Int([at[3]]), 'domain': it.const(0)}
+                    'addrdesc.paddress.ns': it.const(1) if s2r else Int([at[3]]), 'domain': it.const(0)}
             for c, v, st_ in res.rets:
                 obj = v.single()
                 cc = B.AND(c, fin)
@@ -1073,6 +1093,8 @@ def main(repo_path, tier, seed, replay=None):
     LD_ALL = tuple((a, b) for a in range(8) for b in range(8))
     check_ld_walk(run, repo, LD_ALL if tier == 'thorough' else LD_QUICK)
     check_ld_walk(run, repo, tuple((a, 0) for a in range(8)) if tier == 'thorough' else ((0, 0), (1, 0), (2, 0), (6, 0)), regime='hyp')
+    S2_ALL = tuple((t, 0) for t in range(-2, 8)) + tuple((t, 1) for t in range(-8, 2))
+    check_ld_walk(run, repo, S2_ALL if tier == 'thorough' else ((0, 1), (-8, 1), (1, 1), (-2, 0), (3, 0), (7, 0)), regime='s2')
     # positive control for the long-descriptor rule: the level-2 block output slice moved by a bit (in memory)
     fl = repo.method('ArmV6', 'translation_table_walk_ld')
     srcl = fl.module.source
@@ -1105,8 +1127,8 @@ def main(repo_path, tier, seed, replay=None):
         what = 'section base slice l1desc[31:20] -> [31:21]'
     run.control('C15-S descriptor slice moved', fired, what)
     run.exhaustive = True
-    run.undecided = ['long-descriptor walk: the stage-2 (VTTBR) regime and the walk-attribute fields of the descriptor fetch (IRGN/ORGN/SH); the stage-1 PL1&0 and Hyp walks are decided by C15-W',
-                     'memory attribute decoding (TEX remap / MAIR) beyond the bits handed to it', 'stage-2 translation',
+    run.undecided = ['long-descriptor walk: the walk-attribute fields of the descriptor fetch (IRGN/ORGN/SH), the second-stage translation of stage-1 table addresses, S2AttrDecode / CheckPermissionS2 (the three regimes of the walk itself - PL1&0, Hyp, stage 2 - are decided by C15-W)',
+                     'memory attribute decoding (TEX remap / MAIR) beyond the bits handed to it', 'composition of stage 1 with stage 2 (SecondStageTranslate)',
                      'big-endian (SCTLR.EE) descriptor fetch is compared in the EE = 0 world only']
     run.assumptions = ['reference: TranslationTableWalkSD, CheckDomain, EncodeSDFSR/LDFSR, DataAbort, FCSETranslate, '
                        'TranslateAddressV (ARM ARM B3, DESIGN.md A.6/A.9)', 'stage 2 not in play (no virtualization or secure state)']
